@@ -16,10 +16,10 @@ CHECK_DEADLOCK FALSE
 """
 
 
-def mc_and_replay(v, wd, universe, k, big, name=None, workers=12, timeout=3000, min_cases=10):
+def mc_and_replay(v, wd, universe, k, big, name=None, workers=12, timeout=3000, min_cases=10, extra=None):
     name = name or universe
     r = vlib.run_tlc("MC_Net", CFG % (universe, k, "TRUE" if big else "FALSE", "FALSE"), wd, "mc_" + name,
-                     workers=workers, timeout=timeout, heap="12g")
+                     workers=workers, timeout=timeout, heap="12g", extra=extra)
     if r["error"]:
         raise vlib.ToolError("M1 failed on universe %s: %s" % (universe, r["error"][:2000]))
     v.add_tlc(r)
@@ -62,6 +62,14 @@ def option_spellings(v, wd, k):
     vlib.run_harness(["replay", cases, rep_path], timeout=3000)
     rep = vlib.load_report(rep_path)
     v.add_report(rep, "M2:MC_Opt", traces=len(rest))
+    return rep
+
+
+def random_lists(v, wd, seed, n):
+    """Universe rand of MC_Net: n random lists of 3..9 rules drawn by TLC (Randomization, seeded) from a product space of
+    patterns x anchors x every option; Ideal verdicts / CSP, fuse groups, monotonicity replayed on real engines."""
+    r, rep = mc_and_replay(v, wd, "rand", n, False, workers=12, extra=["-seed", str(seed)])
+    vlib.require(rep["evaluations"] > 20 * n and rep["nontrivial"] > n // 2, "random network universe too small")
     return rep
 
 
